@@ -72,6 +72,12 @@ CLAIMS = {
             "container public key matching -- and the library's verdict and exported coordinates are compared with it on all paths (raw, octets incl. every prefix class, SPKI DER/PEM, certificate, TLS key exchange and key share, ECDH peer, ECPrivateKey, PKCS#8, SM2 C1, SM9 points, compress/decompress).",
             "Trusted: TLC; container encodings and witnesses from the references (a wrong witness cannot make a wrong verdict pass); reference [d]G and SM9 twist membership as oracle columns.",
             "4/C12"),
+    "C13": ("exploration",
+            "TLC evaluation of Z256Judge.tla: one exact BigNat relation per exported sm2_z256_* operation on boundary-biased operands, with quotient/slope witnesses and TLC-checked scalar-multiplication chains",
+            "TLC is used as an exact big-integer relation checker: integer add/sub/mul/cmp/shift, Booth recoding, mod p / mod n / Montgomery operations (congruences with witnesses), point add/dbl/neg/sub incl. P=Q, P=-Q, infinity and "
+            "non-normalised Jacobian inputs (chord/tangent relations), and scalar multiplication by four routes against the reference with chains for a sample. Sampling is boundary-biased, not exhaustive.",
+            "Trusted: TLC; witnesses cannot make a wrong result pass; reference [k]P and exponentiation values. Thorough adds the ENABLE_SM2_AMD64 build.",
+            "4/C13"),
     "C18": ("fault_enumeration",
             "TLC model checking of Entropy.tla + link-time getentropy interposition with a failure injected at every draw index, validated against EntropyTrace.tla",
             "Every randomised API operation and the three handshakes in both roles are run clean, on an equal and a different entropy stream, repeated within one stream, and with the source failing at each draw index; "
